@@ -78,16 +78,25 @@ P = {
        "Appendix B).",
   ref="DESIGN.md section 5 C13"),
  "C14": dict(
-  text="19 Lean theorems over a syscall-level action model of safe.WriteFile/safe.File (createExcl, write chunks per bufio, "
-       "close, rename, unlink) for every initial directory, umask, mode, buffer size, piece list, fault and kill point: "
-       "dest_old_or_new_at_every_prefix, rename_after_all_bytes, failure_clean, commit_result, close_commit_idempotent, "
-       "history_dest_old_or_new for arbitrary File API histories, chunking lemmas. The action model is tied to the code by a "
-       "fixed enumeration of strace runs (syscall sequences, injected errors on every write/close/rename, SIGKILL at every "
-       "syscall) plus in-process API histories with a concurrent reader.",
-  note="assumed: POSIX rename atomicity, page-cache survival after SIGKILL, kernel umask arithmetic, no short writes; name "
-       "validation, the O_EXCL retry loop and a failing unlink are not modelled; if strace is unavailable the trace stream is "
-       "skipped and the evidence says so.",
-  ref="DESIGN.md section 5 C14"),
+  text="34 Lean theorems over a syscall-level action model of safe.WriteFile/safe.File including CreateWithMode's name check "
+       "(filepath.Clean/Dir transcribed), CreateTemp's naming and O_EXCL retry loop (random numbers as a parameter stream, at "
+       "most 1000 attempts, ErrExist with the directory unchanged), bufio's sticky error, three callback behaviours, callback "
+       "error or panic, a fault on any write/flush/close/rename and a failing unlink of the cleanup, for every initial "
+       "directory, umask, mode, buffer size, piece list, fault and kill point: dest_old_or_new_at_every_prefix, "
+       "rename_after_all_bytes, failure_clean, commit_result, close_commit_idempotent, history_dest_old_or_new for arbitrary "
+       "File API histories, create_touches_no_existing_entry, create_gives_up_after_1000, full_dest_old_or_new, "
+       "full_failure_leaves_only_the_temp, unlink_error_reporting, no_clash_unless_lookalike. Tied by in-process differential "
+       "streams (api, wf, paths, dest) and an exhaustive strace enumeration (syscall sequences, injected errno on every "
+       "write/close/rename/unlink, EEXIST on the first 1, 2, 999, 1000 temp opens, SIGKILL on entry to every syscall incl. the "
+       "cleanup and panic-unwind paths); the buffer size is measured from behaviour.",
+  note="assumed: POSIX rename atomicity, page-cache survival after SIGKILL, kernel umask arithmetic, no short writes; excluded "
+       "by hypothesis and shown by example: an absent destination whose name is itself a candidate safe<digits> hit by the "
+       "random draw (2^-63 per attempt); with a failing unlink the temporary file necessarily remains and Commit/WriteFile "
+       "return the earlier error (a double fault the code cannot avoid; transcribed); two faults in one failure path are "
+       "checked by a harness-judged strace oracle only; directory, symlink and dangling destinations are encoded by the driver "
+       "as flag bits and environment rules: exercised against the code but outside every theorem; if strace is unavailable "
+       "the trace stream is skipped and the evidence says so.",
+  ref="DESIGN.md section 5 C14, section 0"),
  "C16": dict(
   text="27 Lean theorems about a transition-system model of the limiter tree (Use with six outcomes, tick reset + service loop, "
        "New, child/root Close, ticker goroutine with lock and done hand-over) for all trees, request streams and interleavings: "
@@ -200,11 +209,14 @@ P = {
        "(translator): on every run gossa/ssagen regenerates Lean definitions of the 48 integer functions of xmath/fixed and "
        "xmath/fixed/f64 (D1..D16 Places/Multiplier, f64.Int Abs Add Ceil Dec Div Inc Max Min Mod Mul Round Sub Trunc, ...) from "
        "the working tree (lean/Generated/SSA_F64.lean; the type parameter becomes a dictionary (Multiplier, Places)) and "
-       "Props/C03Gen.lean proves each equal to the hand-written model over BitVec 64, wrap-around included (54 theorems).",
+       "Props/C03Gen.lean proves each equal to the hand-written model over BitVec 64, wrap-around included (54 theorems); the "
+       "same for 26 functions of xmath/fixed/f128 (lean/Generated/SSA_F128.lean, calls into xmath/num resolved to the "
+       "regenerated SSA_Num definitions, Int128.Div/Mod taken by the C01 model) in Props/C03Gen128.lean (31 theorems).",
   note="the SSA translator (gossa) is trusted to render the integer fragment faithfully; From/As/CheckedAs, text methods and "
-       "Fraction are outside the translated fragment (correspondence only); a function that a change moves outside the "
-       "fragment is recorded as reduced coverage, not as a broken proof. float From/As error bound: implementation-side oracle against big.Rat only (no theorem; float32 kinds read with "
-       "relative bound 2^-23); Uint128.Div inside f128.Div taken by its contract (proved under C01); wrap-around behaviour of "
+       "Fraction are outside the translated fragment (correspondence only); a function of the committed list lean/Generated/expected_*.txt that a change "
+       "moves outside the fragment is reported as 'translator tie lost' (a VIOLATION ending in no-failing-input-found unless the "
+       "differential run supplies an input). float From/As error bound: implementation-side oracle against big.Rat only (no theorem; float32 kinds read with "
+       "relative bound 2^-23); wrap-around behaviour of "
        "non-representable results is compared model-vs-code only.",
   ref="DESIGN.md section 5 C03, section 0"),
  "C07": dict(
@@ -245,8 +257,15 @@ P = {
   text="36 Lean theorems over any ordered ring/field, instantiated at the Int and Rat types the driver runs: Rect contains_iff, "
        "intersects_iff, intersect_spec, union_covers/union_smallest, empty_absorbs; Matrix transform_multiply/translate/scale/"
        "rotate (any sin/cos pair), identity_neutral; contour crossing-number characterisation, even-odd spec, bounds_encloses, "
-       "transform_maps_vertices. ~800k exact (dyadic) cases per quick run compared bit-exactly.",
-  note="float rounding is outside the theorems (inputs are chosen so every float operation is exact, asserted with big.Rat); "
+       "transform_maps_vertices. ~720k exact (dyadic) cases per quick run compared bit-exactly. SECOND TIE "
+       "(translator): on every run gossa/ssagen regenerates Lean definitions of 54 loop-free methods of xmath/geom Rect, Point, "
+       "Size, Insets and Matrix from the working tree (lean/Generated/SSA_Geom.lean; the type parameter T becomes an abstract "
+       "type with exactly the operations the body uses) and Props/C18Gen.lean proves the 25 that have a model counterpart equal "
+       "to the Model/Geom functions the theorems are about, for every such type (Contains, Intersects, Intersect, Union, "
+       "Point.In, Expand, Inset, Matrix Multiply/Translate/Scale/TransformPoint, ...), plus 3 transported corollaries.",
+  note="the SSA translator (gossa) is trusted to render the loop-free fragment faithfully; a function that a change moves out "
+       "of the fragment is reported as 'translator tie lost' (no-failing-input-found unless the differential run finds an "
+       "input); float rounding is outside the theorems (inputs are chosen so every float operation is exact, asserted with big.Rat); "
        "Rotate/RotateByDegrees with libm sin/cos only through a 16-ulp implementation-side oracle; integer overflow of X+Width "
        "not modelled; the floating-point clause is evidenced by the floatspec oracle (point-set specifications evaluated on "
        "extreme representable points of non-dyadic rectangles); 4 inputs where Union/Intersect's recomputed far edge is one "
